@@ -6,6 +6,10 @@ import FeatModel.Lemmas.C13ExtEx
 import FeatModel.Lemmas.C13ExtSplitter
 import FeatModel.Lemmas.C13ExtAlias
 import FeatModel.Lemmas.C13ExtAsync
+import FeatModel.Lemmas.C13Parti
+import FeatModel.Lemmas.C13Solve
+import FeatModel.Lemmas.C13Float
+import FeatModel.Lemmas.C13FloatBound
 /-! # C13 — distributed vector synchronisation (Gate / SynchVectorTicket / Global::Matrix) -/
 open FeatModel.Dist FeatModel.C13L
 
@@ -1156,3 +1160,252 @@ example : gnorm2sqr exDecomp.patches exVs = 88 ∧ unweightedNormSqr exVs = 187 
   · simp [unweightedNormSqr, allSum, dotLocal, exVs]
     norm_num
 example : (∃ r, r < exDecomp.np ∧ 0 ∈ exDecomp.lmap r) ∧ 2 ≤ (exDecomp.sharers 0).length := by decide
+
+/-! ## The decompositions produced by C12's patch extraction are well-formed -/
+
+/-- (G3) **`Decomp.WF` derived from the partition model of C12** (Lagrange-1: one DOF per vertex): for every
+consistent mesh and every partition, local-to-global maps = vertex target sets, gate neighbours = `comm_ranks`,
+mirrors = vertex halos.  So every C13 theorem with a `d.WF` hypothesis holds for every decomposition that
+`extract_patch` can produce (`0 < m.dim` is part of `consistent`, `p.wf` part of `isPartition`). -/
+theorem C13.WF_of_partition (m : FeatModel.Parti.Mesh) (p : FeatModel.Parti.Parti) (hm : m.consistent = true)
+    (hp : FeatModel.Parti.isPartition p = true) : (decompOfParti m p).WF :=
+  FeatModel.C13L.WF_of_partition m p hm hp
+
+/-- the same for DOFs on the entities of one fixed dimension `d < dim` (edge / face DOFs); needs in addition that
+every entity has a non-empty facet list (`facetsOk`), so that sharing a `d`-entity implies sharing a vertex, which
+is what `comm_ranks` is built from.  (One dimension at a time: not the all-dimensions-at-once Q2 numbering.) -/
+theorem C13.WF_of_partition_dim (m : FeatModel.Parti.Mesh) (p : FeatModel.Parti.Parti) (hm : m.consistent = true)
+    (hf : m.facetsOk = true) (hp : FeatModel.Parti.isPartition p = true) (d : Nat) (hd : d < m.dim) :
+    (decompOfPartiDim m p d).WF :=
+  FeatModel.C13L.WF_of_partition_facets m p hm hf hp d hd
+
+/-- bookkeeping: number of patches, local-to-global map and gate of `decompOfPartiDim` -/
+theorem C13.decompOfParti_spec (m : FeatModel.Parti.Mesh) (p : FeatModel.Parti.Parti) (d r : Nat) (hr : r < p.nDom) :
+    (decompOfPartiDim m p d).np = p.nDom
+    ∧ (decompOfPartiDim m p d).lmap r = m.target (p.row r) d
+    ∧ (∀ i, (decompOfPartiDim m p d).gdof r i = FeatModel.Parti.toBase m p r d i)
+    ∧ ((decompOfPartiDim m p d).patch r).n = (m.target (p.row r) d).length
+    ∧ ((decompOfPartiDim m p d).patch r).nbrs
+        = (FeatModel.Parti.commRanks m p r).map fun s => (s, FeatModel.Parti.halo m p r s d) := by
+  refine ⟨dop_np m p d, dop_lmap m p d r hr, fun i => dop_gdof m p d r i hr, ?_, ?_⟩
+  · rw [dop_patch m p d r hr]
+  · rw [dop_patch m p d r hr]
+
+/-- `C13.sync0_sum` with the well-formedness hypothesis discharged by C12 -/
+theorem C13.sync0_sum_of_partition {α : Type} [Field α] (m : FeatModel.Parti.Mesh) (p : FeatModel.Parti.Parti)
+    (hm : m.consistent = true) (hp : FeatModel.Parti.isPartition p = true) (vs : List (List α))
+    (hv : ∀ r, r < (decompOfParti m p).np → (vs.getD r []).length = ((decompOfParti m p).patch r).n)
+    (ords : List (List Nat))
+    (hord : ∀ r, r < (decompOfParti m p).np →
+      (ords.getD r []).Perm (List.range ((decompOfParti m p).patch r).nbrs.length))
+    (r : Nat) (hr : r < (decompOfParti m p).np) (i : Nat) (hi : i < ((decompOfParti m p).patch r).n) :
+    val ((sync0 (decompOfParti m p).patches ords vs).getD r []) i
+      = ((List.range (decompOfParti m p).np).map fun s =>
+          ((decompOfParti m p).sharedVals vs s ((decompOfParti m p).gdof r i)).sum).sum :=
+  C13.sync0_sum (decompOfParti m p) (FeatModel.C13L.WF_of_partition m p hm hp) vs hv ords hord r hr i hi
+
+/-- C12's two-quadrilateral example: 4 vertices per patch, the shared edge (vertices 1, 4) is the mirror -/
+example : FeatModel.Parti.exMesh.consistent = true ∧ FeatModel.Parti.isPartition FeatModel.Parti.exParti = true
+    ∧ FeatModel.Parti.exMesh.facetsOk = true
+    ∧ (decompOfParti FeatModel.Parti.exMesh FeatModel.Parti.exParti).maps = [[1, 2, 4, 5], [0, 1, 3, 4]]
+    ∧ (decompOfParti FeatModel.Parti.exMesh FeatModel.Parti.exParti).patches.map (·.nbrs)
+        = [[(1, [0, 2])], [(0, [1, 3])]] := by decide
+
+/-! ## Discretise-and-solve: the distributed iterations are the one-process iterations (exact arithmetic) -/
+
+/-- (G4) **distributed (Jacobi-)Richardson = serial (Jacobi-)Richardson on the assembled operator**: if the right-hand
+side and the start vector are the consistent vectors of global functions `B`, `X`, then after every number `k` of
+steps the iterate has one vector per patch, of the patch's length, and its entries are the serial iterate
+`richSerialIter` (on `globalApply` / `globalDiag`, defined in `Lemmas/C13Solve.lean`) at the global DOF — for both
+`jac = false` and `jac = true`, every arrival order, every relaxation parameter -/
+theorem C13.richIter_eq {α : Type} [Field α] [CharZero α] (jac : Bool) (omega : α) (d : Decomp) (h : d.WF)
+    (mats : List (List (List (Nat × α))))
+    (hm : ∀ r, r < d.np → (mats.getD r []).length = (d.patch r).n)
+    (ords : List (List Nat)) (hord : ∀ r, r < d.np → (ords.getD r []).Perm (List.range (d.patch r).nbrs.length))
+    (bs xs : List (List α)) (B X : Nat → α)
+    (hbn : bs.length = d.np) (hbl : ∀ r, r < d.np → (bs.getD r []).length = (d.patch r).n)
+    (hB : ∀ r, r < d.np → ∀ i, i < (d.patch r).n → val (bs.getD r []) i = B (d.gdof r i))
+    (hxn : xs.length = d.np) (hxl : ∀ r, r < d.np → (xs.getD r []).length = (d.patch r).n)
+    (hX : ∀ r, r < d.np → ∀ i, i < (d.patch r).n → val (xs.getD r []) i = X (d.gdof r i)) (k : Nat) :
+    (richIter jac omega d.patches ords mats bs k xs).length = d.np
+    ∧ (∀ r, r < d.np → ((richIter jac omega d.patches ords mats bs k xs).getD r []).length = (d.patch r).n)
+    ∧ ∀ r, r < d.np → ∀ i, i < (d.patch r).n →
+        val ((richIter jac omega d.patches ords mats bs k xs).getD r []) i
+          = richSerialIter jac omega d mats B k X (d.gdof r i) := by
+  have := richIter_rep jac omega d h mats hm ords hord bs B ⟨hbn, hbl, hB⟩ k xs X ⟨hxn, hxl, hX⟩
+  exact ⟨this.len, this.lens, this.vals⟩
+
+/-- one step, in the `Rep` form (`Rep d xs X`: one vector per patch, right lengths, entries `X ∘ gdof`) -/
+theorem C13.richStep_rep {α : Type} [Field α] [CharZero α] (jac : Bool) (omega : α) (d : Decomp) (h : d.WF)
+    (mats : List (List (List (Nat × α))))
+    (hm : ∀ r, r < d.np → (mats.getD r []).length = (d.patch r).n)
+    (ords : List (List Nat)) (hord : ∀ r, r < d.np → (ords.getD r []).Perm (List.range (d.patch r).nbrs.length))
+    (bs xs : List (List α)) (B X : Nat → α) (hb : Rep d bs B) (hx : Rep d xs X) :
+    Rep d (richStep jac omega d.patches ords mats bs xs) (richSerialStep jac omega d mats B X) :=
+  FeatModel.C13L.richStep_rep jac omega d h mats hm ords hord bs xs B X hb hx
+
+/-- the building blocks: defect, operator application, synchronised inverse diagonal, global dot product -/
+theorem C13.gdefect_rep {α : Type} [Field α] [CharZero α] (d : Decomp) (h : d.WF)
+    (mats : List (List (List (Nat × α))))
+    (hm : ∀ r, r < d.np → (mats.getD r []).length = (d.patch r).n)
+    (ords : List (List Nat)) (hord : ∀ r, r < d.np → (ords.getD r []).Perm (List.range (d.patch r).nbrs.length))
+    (bs xs : List (List α)) (B X : Nat → α) (hb : Rep d bs B) (hx : Rep d xs X) :
+    Rep d (gdefect d.patches ords mats bs xs) (fun g => B g - globalApply d mats X g)
+    ∧ Rep d (gapply d.patches ords mats xs) (globalApply d mats X)
+    ∧ Rep d (ginvDiag d.patches ords mats) (fun g => 1 / globalDiag d mats g)
+    ∧ gdot d.patches bs xs = globalDot d B X :=
+  ⟨FeatModel.C13L.gdefect_rep d h mats hm ords hord bs xs B X hb hx,
+   gapply_rep d h mats hm ords hord xs X hx, ginvDiag_rep d h mats hm ords hord, gdot_rep d h bs xs B X hb hx⟩
+
+/-- **distributed CG = serial CG**: the start state represents the serial start state … -/
+theorem C13.cgInit_rep {α : Type} [Field α] [CharZero α] (d : Decomp) (h : d.WF)
+    (mats : List (List (List (Nat × α))))
+    (hm : ∀ r, r < d.np → (mats.getD r []).length = (d.patch r).n)
+    (ords : List (List Nat)) (hord : ∀ r, r < d.np → (ords.getD r []).Perm (List.range (d.patch r).nbrs.length))
+    (bs xs : List (List α)) (B X : Nat → α) (hb : Rep d bs B) (hx : Rep d xs X) :
+    CGRep d (cgInit d.patches ords mats bs xs) (cgSerialInit d mats B X) :=
+  FeatModel.C13L.cgInit_rep d h mats hm ords hord bs xs B X hb hx
+
+/-- … and after every number of steps `x`, `r`, `p` are the consistent vectors of the serial `x`, `r`, `p` and the
+scalar `rr` is the serial `rr` (`CGRep`); division by zero (breakdown) happens on both sides simultaneously -/
+theorem C13.cgIter_eq {α : Type} [Field α] [CharZero α] (d : Decomp) (h : d.WF)
+    (mats : List (List (List (Nat × α))))
+    (hm : ∀ r, r < d.np → (mats.getD r []).length = (d.patch r).n)
+    (ords : List (List Nat)) (hord : ∀ r, r < d.np → (ords.getD r []).Perm (List.range (d.patch r).nbrs.length))
+    (bs xs : List (List α)) (B X : Nat → α) (hb : Rep d bs B) (hx : Rep d xs X) (k : Nat) :
+    CGRep d (cgIter d.patches ords mats k (cgInit d.patches ords mats bs xs))
+      (cgSerialIter d mats k (cgSerialInit d mats B X)) :=
+  cgIter_rep d h mats hm ords hord k _ _ (FeatModel.C13L.cgInit_rep d h mats hm ords hord bs xs B X hb hx)
+
+/-- the pointwise reading of `C13.cgIter_eq` for the solution component -/
+theorem C13.cgIter_x_val {α : Type} [Field α] [CharZero α] (d : Decomp) (h : d.WF)
+    (mats : List (List (List (Nat × α))))
+    (hm : ∀ r, r < d.np → (mats.getD r []).length = (d.patch r).n)
+    (ords : List (List Nat)) (hord : ∀ r, r < d.np → (ords.getD r []).Perm (List.range (d.patch r).nbrs.length))
+    (bs xs : List (List α)) (B X : Nat → α) (hb : Rep d bs B) (hx : Rep d xs X) (k : Nat)
+    (r : Nat) (hr : r < d.np) (i : Nat) (hi : i < (d.patch r).n) :
+    val ((cgIter d.patches ords mats k (cgInit d.patches ords mats bs xs)).x.getD r []) i
+      = (cgSerialIter d mats k (cgSerialInit d mats B X)).x (d.gdof r i)
+    ∧ (cgIter d.patches ords mats k (cgInit d.patches ords mats bs xs)).rr
+      = (cgSerialIter d mats k (cgSerialInit d mats B X)).rr := by
+  have := cgIter_rep d h mats hm ords hord k _ _ (FeatModel.C13L.cgInit_rep d h mats hm ords hord bs xs B X hb hx)
+  exact ⟨this.x.vals r hr i hi, this.rr⟩
+
+/-- one CG step from any represented state -/
+theorem C13.cgStep_rep {α : Type} [Field α] [CharZero α] (d : Decomp) (h : d.WF)
+    (mats : List (List (List (Nat × α))))
+    (hm : ∀ r, r < d.np → (mats.getD r []).length = (d.patch r).n)
+    (ords : List (List Nat)) (hord : ∀ r, r < d.np → (ords.getD r []).Perm (List.range (d.patch r).nbrs.length))
+    (st : CGState α) (S : CGSerial α) (hs : CGRep d st S) :
+    CGRep d (cgStep d.patches ords mats st) (cgSerialStep d mats S) :=
+  FeatModel.C13L.cgStep_rep d h mats hm ords hord st S hs
+
+/-- the representation hypothesis is satisfiable: `exVs` is the consistent vector of 0↦5, 1↦7, 2↦1, 3↦2, 4↦3 -/
+example : Rep exDecomp exVs (fun g => ([5, 7, 1, 2, 3] : List ℚ).getD g 0) := ⟨by decide, by decide, by decide⟩
+
+/-! ## Float clause: the synchronisation with an abstract rounding of every addition -/
+
+/-- (F-b) with `fl = id` the float-level functions are the exact ones -/
+theorem C13.sync0PatchFl_id {α : Type} [Field α] (ps : List Patch) (vs : List (List α)) (r : Nat) (ord : List Nat)
+    (v : List α) (mir : List Nat) (buf : List α) :
+    sync0PatchFl (fun x => x) ps vs r ord = sync0Patch ps vs r ord
+    ∧ scatterAddFl (fun x => x) v mir buf = scatterAxpy v mir buf 1 :=
+  ⟨FeatModel.C13L.sync0PatchFl_id ps vs r ord, scatterAddFl_id v mir buf⟩
+
+/-- (F-c) one rounded scatter through a duplicate-free mirror: length kept; mirror position `k` (with a buffer
+entry) receives exactly one rounded addition; entries outside the mirror are untouched (and not rounded) -/
+theorem C13.scatterAddFl_val {α : Type} [Field α] (fl : α → α) (v : List α) (mir : List Nat) (hn : mir.Nodup)
+    (buf : List α) :
+    (scatterAddFl fl v mir buf).length = v.length
+    ∧ (∀ k (hk : k < mir.length) (hkb : k < buf.length), mir[k] < v.length →
+        val (scatterAddFl fl v mir buf) mir[k] = fl (val v mir[k] + buf[k]))
+    ∧ (∀ i, i ∉ mir → val (scatterAddFl fl v mir buf) i = val v i) :=
+  ⟨scatterAddFl_length fl v mir buf, fun k hk hkb hlt => scatterAddFl_val_mem fl v mir hn buf k hk hkb hlt,
+   fun i hi => scatterAddFl_val_not_mem fl v mir buf i hi⟩
+
+/-- both cases in one formula -/
+theorem C13.scatterAddFl_val_find {α : Type} [Field α] (fl : α → α) (v : List α) (mir : List Nat) (hn : mir.Nodup)
+    (buf : List α) (i : Nat) (hi : i < v.length) :
+    val (scatterAddFl fl v mir buf) i
+      = (((mir.zip buf).find? fun p => p.1 == i).map (·.2)).elim (val v i) (fun c => fl (val v i + c)) :=
+  FeatModel.C13L.scatterAddFl_val fl v mir hn buf i hi
+
+/-- **entry `i` of the rounded synchronisation is the rounded sum `flSum` of the own value and of the received
+buffer entries, in arrival order, of exactly those neighbours whose mirror contains `i`** (`arrivals`, defined in
+`Lemmas/C13Float.lean`: `ord.filterMap` of the buffer entry at the mirror position of `i`) -/
+theorem C13.sync0PatchFl_val_flSum {α : Type} [Field α] (fl : α → α) (ps : List Patch) (vs : List (List α))
+    (r : Nat) (ord : List Nat)
+    (hn : ∀ k ∈ ord, ((ps.getD r default).nbrs.getD k (0, [])).2.Nodup) (i : Nat)
+    (hi : i < (vs.getD r []).length) :
+    (sync0PatchFl fl ps vs r ord).length = (vs.getD r []).length
+    ∧ val (sync0PatchFl fl ps vs r ord) i = flSum fl (val (vs.getD r []) i) (arrivals ps vs r ord i) :=
+  ⟨sync0PatchFl_length fl ps vs r ord, FeatModel.C13L.sync0PatchFl_val_flSum fl ps vs r ord hn i hi⟩
+
+/-- (F-a) **error of a rounded sum**: with `|fl x - x| ≤ u |x|` for every addition -/
+theorem C13.flSum_bound {α : Type} [Field α] [LinearOrder α] [IsStrictOrderedRing α] (fl : α → α) (u : α) (hu : 0 ≤ u)
+    (hfl : ∀ x, |fl x - x| ≤ u * |x|) (c0 : α) (cs : List α) :
+    |flSum fl c0 cs - (c0 + cs.sum)| ≤ ((1 + u) ^ cs.length - 1) * (|c0| + (cs.map fun c => |c|).sum) :=
+  FeatModel.C13L.flSum_bound fl u hu hfl c0 cs
+
+/-- the arrival order changes the computed value but not the bound -/
+theorem C13.flSum_bound_perm {α : Type} [Field α] [LinearOrder α] [IsStrictOrderedRing α] (fl : α → α) (u : α) (hu : 0 ≤ u)
+    (hfl : ∀ x, |fl x - x| ≤ u * |x|) (c0 : α) (cs cs' : List α) (hp : cs'.Perm cs) :
+    |flSum fl c0 cs' - (c0 + cs.sum)| ≤ ((1 + u) ^ cs.length - 1) * (|c0| + (cs.map fun c => |c|).sum) :=
+  FeatModel.C13L.flSum_bound_perm fl u hu hfl c0 cs cs' hp
+
+/-- the rounding hypothesis is satisfiable (exact arithmetic: `fl = id`, `u = 0`); any IEEE addition satisfies it
+with `u` = unit roundoff as long as no overflow / underflow occurs -/
+example : (0 : ℚ) ≤ 0 ∧ ∀ x : ℚ, |(fun y => y) x - x| ≤ 0 * |x| := by
+  refine ⟨le_refl _, fun x => ?_⟩
+  simp
+
+/-- under `Decomp.WF`, for every arrival order that is a permutation of the neighbour positions, the own value plus
+the arrivals at entry `i` are exactly the values of all sharing patches: any additive functional `Σ h` agrees
+(`h = id`: the exact sum; `h = |·|`: the condition-number sum; `h = 1`: the number of sharers) -/
+theorem C13.arrivals_sum {α : Type} [Field α] (d : Decomp) (hw : d.WF) (vs : List (List α)) (r : Nat)
+    (hr : r < d.np) (i : Nat) (hi : i < (d.patch r).n) (ord : List Nat)
+    (hord : ord.Perm (List.range (d.patch r).nbrs.length)) (h : α → α) :
+    h (val (vs.getD r []) i) + ((arrivals d.patches vs r ord i).map h).sum
+      = ((List.range d.np).map fun s => ((d.sharedVals vs s (d.gdof r i)).map h).sum).sum :=
+  FeatModel.C13L.arrivals_sum d hw vs r hr i hi ord hord h
+
+/-- (G2) **error bound of the rounded type-0 synchronisation, for EVERY arrival order**: the computed entry differs
+from the exact sum over the `k = #sharers` patches by at most `((1+u)^(k-1) - 1) * Σ |values|` (`k - 1` rounded
+additions; entries of neighbours that do not contain the DOF are neither added nor rounded) -/
+theorem C13.sync0_float_bound {α : Type} [Field α] [LinearOrder α] [IsStrictOrderedRing α] (fl : α → α) (u : α) (hu : 0 ≤ u)
+    (hfl : ∀ x, |fl x - x| ≤ u * |x|) (d : Decomp) (hw : d.WF) (vs : List (List α))
+    (hv : ∀ r, r < d.np → (vs.getD r []).length = (d.patch r).n)
+    (r : Nat) (hr : r < d.np) (ord : List Nat) (hord : ord.Perm (List.range (d.patch r).nbrs.length))
+    (i : Nat) (hi : i < (d.patch r).n) :
+    |val (sync0PatchFl fl d.patches vs r ord) i
+        - ((List.range d.np).map fun s => (d.sharedVals vs s (d.gdof r i)).sum).sum|
+      ≤ ((1 + u) ^ ((d.sharers (d.gdof r i)).length - 1) - 1)
+        * ((List.range d.np).map fun s => ((d.sharedVals vs s (d.gdof r i)).map fun c => |c|).sum).sum :=
+  FeatModel.C13L.sync0_float_bound fl u hu hfl d hw vs hv r hr ord hord i hi
+
+/-- two arrival orders give results that differ by at most twice the bound -/
+theorem C13.sync0_float_order_diff {α : Type} [Field α] [LinearOrder α] [IsStrictOrderedRing α] (fl : α → α) (u : α) (hu : 0 ≤ u)
+    (hfl : ∀ x, |fl x - x| ≤ u * |x|) (d : Decomp) (hw : d.WF) (vs : List (List α))
+    (hv : ∀ r, r < d.np → (vs.getD r []).length = (d.patch r).n)
+    (r : Nat) (hr : r < d.np) (o₁ o₂ : List Nat)
+    (h₁ : o₁.Perm (List.range (d.patch r).nbrs.length)) (h₂ : o₂.Perm (List.range (d.patch r).nbrs.length))
+    (i : Nat) (hi : i < (d.patch r).n) :
+    |val (sync0PatchFl fl d.patches vs r o₁) i - val (sync0PatchFl fl d.patches vs r o₂) i|
+      ≤ 2 * (((1 + u) ^ ((d.sharers (d.gdof r i)).length - 1) - 1)
+        * ((List.range d.np).map fun s => ((d.sharedVals vs s (d.gdof r i)).map fun c => |c|).sum).sum) := by
+  have b1 := FeatModel.C13L.sync0_float_bound fl u hu hfl d hw vs hv r hr o₁ h₁ i hi
+  have b2 := FeatModel.C13L.sync0_float_bound fl u hu hfl d hw vs hv r hr o₂ h₂ i hi
+  have := abs_sub_le (val (sync0PatchFl fl d.patches vs r o₁) i)
+    (((List.range d.np).map fun s => (d.sharedVals vs s (d.gdof r i)).sum).sum)
+    (val (sync0PatchFl fl d.patches vs r o₂) i)
+  have e := abs_sub_comm (((List.range d.np).map fun s => (d.sharedVals vs s (d.gdof r i)).sum).sum)
+    (val (sync0PatchFl fl d.patches vs r o₂) i)
+  rw [e] at this
+  linarith [b1, b2, this]
+
+/-- first-order form of the factor: `(1+u)^n - 1 ≤ n u + (n u)²` as long as `n u ≤ 1` -/
+theorem C13.pow_first_order {α : Type} [Field α] [LinearOrder α] [IsStrictOrderedRing α] (u : α) (hu : 0 ≤ u) (n : Nat) (hn : (n : α) * u ≤ 1) :
+    (1 + u) ^ n - 1 ≤ (n : α) * u + ((n : α) * u) ^ 2 :=
+  FeatModel.C13L.pow_first_order u hu n hn
+
+example : ([1, 0] : List Nat).Perm (List.range (exDecomp.patch 0).nbrs.length) := by decide
